@@ -162,6 +162,10 @@ impl<T: Write + Read + Seek> E57Writer<T> {
     fn write_xml_and_header(&mut self, xml: &str) -> Result<()> {
         let xml_bytes = xml.as_bytes();
         let xml_length = xml_bytes.len();
+        // An earlier section that failed part way can leave the writer on an unaligned offset
+        self.writer
+            .align()
+            .write_err("Failed to align writer on next 4-byte offset before writing XML section")?;
         let xml_offset = self.writer.physical_position()?;
         self.writer
             .write_all(xml_bytes)
